@@ -565,7 +565,7 @@ func c21Clip(b []byte) string {
 	return string(b)
 }
 
-const c21Rule = "a seed (one of ~4000 .gno files of gnovm/tests/files and examples, the fork's testdata, ~600 string literals of the fork's copied Go tests, ~90 hand-written snippets around the 1.23/1.24/1.25 parser changes, or raw bytes), optionally cut to a window of top-level declarations (or a token window parsed as an expression), 0-4 token-level mutations (delete, duplicate, swap, replace/insert from a vocabulary of punctuation, keywords, literals, comments, //line directives and illegal bytes, wrap in 1..1500 brackets, delete range, change whitespace, truncate, corrupt a token) and one of 10 parser modes; non-trivial = the fork returns >=1 declaration or >=1 error (or an expression)"
+const c21Rule = "a seed (one of ~4000 .gno files of gnovm/tests/files and examples, the fork's testdata, ~600 string literals of the fork's copied Go tests, ~90 hand-written snippets around the 1.23/1.24/1.25 parser changes, raw bytes, or (2 in 7) a file written by a recursive grammar-directed generator: 1-3 top-level declarations with every statement, expression and type form nested in each other up to a node budget of 20-250, ~97% syntactically valid, composite literals of named types in control clause headers parenthesised except in 12%), optionally cut to a window of top-level declarations (or a token window parsed as an expression), 0-4 token-level mutations (delete, duplicate, swap, replace/insert from a vocabulary of punctuation, keywords, literals, comments, //line directives and illegal bytes, wrap in 1..1500 brackets, delete range, change whitespace, truncate, corrupt a token; generated files: none in half of the cases, else 0-2) and one of 10 parser modes; non-trivial = the fork returns >=1 declaration or >=1 error (or an expression)"
 
 func c21DrawMuts(rt *rapid.T, max int) []c21Mut {
 	n := rapid.IntRange(0, max).Draw(rt, "nmut")
